@@ -4,6 +4,7 @@ import (
 	"fmt"
 	"path"
 	"sort"
+	"strings"
 
 	"pgregory.net/rapid"
 )
@@ -18,19 +19,19 @@ const (
 
 // GenOpts tunes the tree / build-pair generators.
 type GenOpts struct {
-	MaxFiles   int  // default 6
-	Big        bool // allow files around and above the 4 MiB data-op limit (rare draw)
-	BigAlways  bool // force at least one big file
-	MaxMid     int  // cap for "mid" random sizes (default 300 KiB)
-	Links      bool
-	EmptyDirs  bool
-	KindChange bool // symlink<->file/dir kind changes
-	DirFile    bool // dir<->file kind changes in place (known-defect territory for in-place commit)
-	LowEntropy bool // allow low-entropy contents
-	NoEdits    bool // C08-style: only renames/dups/localized edits
-	TinyBias   bool // favour sizes 0..16 (C07)
+	MaxFiles        int  // default 6
+	Big             bool // allow files around and above the 4 MiB data-op limit (rare draw)
+	BigAlways       bool // force at least one big file
+	MaxMid          int  // cap for "mid" random sizes (default 300 KiB)
+	Links           bool
+	EmptyDirs       bool
+	KindChange      bool // symlink<->file/dir kind changes
+	DirFile         bool // dir<->file kind changes in place (known-defect territory for in-place commit)
+	LowEntropy      bool // allow low-entropy contents
+	NoEdits         bool // C08-style: only renames/dups/localized edits
+	TinyBias        bool // favour sizes 0..16 (C07)
 	HighEntropyOnly bool // every content is a high-entropy stream (C08)
-	MidBias    bool // favour files of several blocks and edited files (series with many messages)
+	MidBias         bool // favour files of several blocks and edited files (series with many messages)
 }
 
 var dirPool = []string{"", "", "a", "a/b", "c", "a/b/d", "e"}
@@ -96,8 +97,22 @@ func genContent(rt *rapid.T, o GenOpts, size int, poolSeed uint64, label string)
 	if o.HighEntropyOnly {
 		return Bytes(rapid.Uint64().Draw(rt, label+".cseed"), size)
 	}
-	kind := rapid.IntRange(0, 9).Draw(rt, label+".ckind")
+	kind := rapid.IntRange(0, 10).Draw(rt, label+".ckind")
 	switch {
+	case kind == 10:
+		// runs of a constant byte (padding, tables): weak hashes with special values (0 for an even
+		// fill byte over a full block), windows that do not change while rolling
+		out := make([]byte, size)
+		pos := 0
+		for pos < size {
+			b := rapid.SampledFrom([]byte{0, 2, 6, 0xAA, 0xFF, 0x80}).Draw(rt, label+".fill")
+			l := rapid.SampledFrom([]int{1, 100, BlockSize - 1, BlockSize, BlockSize + 1, 3 * BlockSize, size}).Draw(rt, label+".filllen")
+			for k := 0; k < l && pos < size; k++ {
+				out[pos] = b
+				pos++
+			}
+		}
+		return out
 	case kind < 5:
 		return Bytes(rapid.Uint64().Draw(rt, label+".cseed"), size)
 	case kind < 8:
@@ -194,7 +209,7 @@ type Pair struct {
 	Old, New   Tree
 	Meta       map[string]FileMeta // by new path
 	Ops        []string
-	KindChange bool // a symlink<->file/dir change is present
+	KindChange bool     // a symlink<->file/dir change is present
 	DirFile    []string // paths that are a dir in one build and a non-dir in the other
 	PoolSeed   uint64
 }
@@ -243,6 +258,13 @@ func applyEdits(rt *rapid.T, data []byte, k int, label string) ([]byte, int, []s
 			off = len(out)
 		}
 		fresh := Bytes(rapid.Uint64().Draw(rt, label+".eseed"), l)
+		if rapid.IntRange(0, 7).Draw(rt, label+".efresh") == 0 {
+			// sparse bytes: the byte sum over a block-sized window drifts slowly around a multiple of
+			// 65536, so windows whose rolling checksum has special values (unchanged by a one-byte
+			// roll, low half zero) occur within any stretch longer than a block
+			l = rapid.SampledFrom([]int{BlockSize + 1000, 2*BlockSize + 77, 200 * KiB}).Draw(rt, label+".sparselen")
+			fresh = Sparse(rapid.Uint64().Draw(rt, label+".sparseseed"), l, rapid.SampledFrom([]int{2, 16, 128, 255}).Draw(rt, label+".sparseval"))
+		}
 		switch typ {
 		case 0: // overwrite
 			end := off + l
@@ -305,7 +327,7 @@ func GenPair(rt *rapid.T, o GenOpts) *Pair {
 	for _, op := range oldFiles {
 		e := old[op]
 		label := "f"
-		act := rapid.IntRange(0, 18).Draw(rt, label+".op")
+		act := rapid.IntRange(0, 19).Draw(rt, label+".op")
 		if o.MidBias && act < 3 && rapid.Bool().Draw(rt, label+".forceedit") {
 			act = 3
 		}
@@ -417,17 +439,34 @@ func GenPair(rt *rapid.T, o GenOpts) *Pair {
 					p.Ops = append(p.Ops, fmt.Sprintf("splice %s + other -> %s (%d B)", op, np, len(sp)))
 				}
 			}
+		case 19: // a near-duplicate next to the original: same size, rsync weak checksum of the touched block preserved
+			if nd, ok := WeakCollide(e.Data, editOffsets(rt, len(e.Data), label+".wc")); ok {
+				np := freshPath(label + ".wc")
+				if place(np, nd, false, FileMeta{From: op, Edits: 1, Introduced: 3, Op: "weak-collide-copy"}) {
+					p.Ops = append(p.Ops, fmt.Sprintf("near-duplicate(+1,-2,+1) %s -> %s", op, np))
+				}
+			}
 		case 17: // split at a block boundary into two new files (original dropped or kept)
 			if nb := len(e.Data) / BlockSize; nb >= 2 {
 				cut := rapid.IntRange(1, nb-1).Draw(rt, label+".splitat") * BlockSize
 				pa, pb := freshPath(label+".splita"), freshPath(label+".splitb")
+				around := rapid.IntRange(0, 2).Draw(rt, label+".splitaround") == 0
+				if around {
+					// head sorts right before the (kept) original, tail right after it: the patch then
+					// reads old blocks 0..k, copies the whole old file, and goes on reading at block k
+					d, b := "", op
+					if i := strings.LastIndex(op, "/"); i >= 0 {
+						d, b = op[:i+1], op[i+1:]
+					}
+					pa, pb = d+"!"+b, d+b+"~"
+				}
 				if place(pa, append([]byte{}, e.Data[:cut]...), false, FileMeta{From: op, Op: "split-head"}) {
 					p.Ops = append(p.Ops, fmt.Sprintf("split %s[:%d] -> %s", op, cut, pa))
 				}
 				if place(pb, append([]byte{}, e.Data[cut:]...), false, FileMeta{From: op, Op: "split-tail"}) {
 					p.Ops = append(p.Ops, fmt.Sprintf("split %s[%d:] -> %s", op, cut, pb))
 				}
-				if rapid.Bool().Draw(rt, label+".splitdrop") {
+				if !around && rapid.Bool().Draw(rt, label+".splitdrop") {
 					p.Ops = append(p.Ops, "delete(split source) "+op)
 					continue
 				}
